@@ -994,7 +994,13 @@ def instances(tier: str) -> List[Tuple[str, tuple, dict, Callable[..., Callable[
           ("akari", (3, 2, [[0, W_], [W_, W_], [W_, 2]]), {}, rule_akari),
           ("akari", (1, 4, [[W_, -1, W_, W_]]), {}, rule_akari),
           ("akari", (3, 2, [[W_, -1], [W_, W_], [W_, W_]]), {}, rule_akari),   # a cell lit only from the last row / last column
-          ("akari", (2, 3, [[W_, W_, W_], [-1, W_, W_]]), {}, rule_akari)]
+          ("akari", (2, 3, [[W_, W_, W_], [-1, W_, W_]]), {}, rule_akari),
+          # a black cell between two white cells of a column (light must not pass), a 0 clue that matters, numbered clues off the diagonal
+          ("akari", (3, 1, [[W_], [-1], [W_]]), {}, rule_akari),
+          ("akari", (3, 2, [[W_, W_], [1, -1], [W_, W_]]), {}, rule_akari),
+          ("akari", (2, 2, [[0, W_], [W_, W_]]), {}, rule_akari),
+          ("akari", (2, 3, [[W_, 1, W_], [W_, W_, W_]]), {}, rule_akari),
+          ("akari", (3, 2, [[W_, W_], [W_, 1], [W_, W_]]), {}, rule_akari)]
     if deep:
         I += [("akari", (3, 3, [[W_, -1, W_], [W_, W_, W_], [2, W_, W_]]), {}, rule_akari),
               ("akari", (3, 3, [[W_, W_, 1], [W_, W_, W_], [0, W_, W_]]), {}, rule_akari)]
@@ -1074,7 +1080,9 @@ def instances(tier: str) -> List[Tuple[str, tuple, dict, Callable[..., Callable[
     # lits: two rooms of six cells side by side / stacked, and an L-shaped room
     I += [("lits", (3, 4, [[(y, x) for y in range(3) for x in range(2)], [(y, x) for y in range(3) for x in range(2, 4)]]), {}, rule_lits),
           ("lits", (4, 3, [[(y, x) for y in range(2) for x in range(3)], [(y, x) for y in range(2, 4) for x in range(3)]]), {}, rule_lits),
-          ("lits", (2, 5, [[(0, 0), (0, 1), (0, 2), (0, 3), (1, 0)], [(0, 4), (1, 1), (1, 2), (1, 3), (1, 4)]]), {}, rule_lits)]
+          ("lits", (2, 5, [[(0, 0), (0, 1), (0, 2), (0, 3), (1, 0)], [(0, 4), (1, 1), (1, 2), (1, 3), (1, 4)]]), {}, rule_lits),
+          # a plus-shaped room: a T whose centre has all four neighbours in its own room
+          ("lits", (3, 4, [[(0, 1), (1, 0), (1, 1), (1, 2), (2, 1)], [(0, 0), (0, 2), (0, 3), (1, 3), (2, 0), (2, 2), (2, 3)]]), {}, rule_lits)]
     # building (skyscrapers), order 3
     I += [("building", (3, [0, 0, 0], [0, 0, 0], [0, 0, 0], [0, 0, 0]), {}, rule_building),
           ("building", (3, [1, 0, 2], [0, 3, 0], [2, 0, 0], [0, 0, 1]), {}, rule_building),
